@@ -66,6 +66,9 @@ var attribution = []string{
 	"fs/layer.(*layer).SkipVerify",
 	"fs/layer.(*layer).RootNode",
 	"fs/layer.(*layer).Info",
+	// buffer handed back to the pool while its bytes are still being copied into the cache
+	"fs/reader.(*reader).cacheData",
+	"fs/reader.(*reader).OpenFile",
 }
 
 // statistics that are deliberately unsynchronised or guarded elsewhere
@@ -96,6 +99,12 @@ func body(r *vf.Run) {
 		stageHist(r)
 	case "histp":
 		stageHistP(r)
+	case "histc":
+		stageHistC(r)
+	case "conc1":
+		stageConcL1(r)
+	case "conc2":
+		stageConcL2(r)
 	case "l2gate":
 		stageL2Gate(r)
 	case "l3":
@@ -118,7 +127,8 @@ func top(r *vf.Run) {
 	for i := 0; i < nb2; i++ {
 		stages = append(stages, st{"l2", true, []string{fmt.Sprint(i), fmt.Sprint(nb2)}, 14 * time.Minute})
 	}
-	stages = append(stages, st{"hist", true, nil, 14 * time.Minute}, st{"histp", true, nil, 14 * time.Minute})
+	stages = append(stages, st{"hist", true, nil, 14 * time.Minute}, st{"histp", true, nil, 14 * time.Minute},
+		st{"histc", true, nil, 14 * time.Minute}, st{"conc1", true, nil, 14 * time.Minute}, st{"conc2", true, nil, 14 * time.Minute})
 	nb := r.N(4, 8) // l1 batches
 	for i := 0; i < nb; i++ {
 		stages = append(stages, st{"l1", false, []string{fmt.Sprint(i), fmt.Sprint(nb)}, 14 * time.Minute})
@@ -278,6 +288,7 @@ func buildBlob(r *vf.Run, idx int, compression string) (*blobCase, error) {
 // buildBlobMode: gate=true draws blobs for the hook-ordered stages: no hardlinks and no
 // min-chunk-size (one altered chunk => exactly one readAndCache call per Cache walk), no
 // prioritized files (=> .no.prefetch.landmark, so that at L2 only BackgroundFetch walks).
+// prioAll[1] (optional): "shared streams" layout for the concurrent-read stages.
 // prioAll (optional): every regular file is prioritized (=> .prefetch.landmark after them,
 // so that layer.Prefetch walks all file data).
 func buildBlobMode(r *vf.Run, idx int, compression string, gate bool, prioAll ...bool) (*blobCase, error) {
@@ -296,7 +307,12 @@ func buildBlobMode(r *vf.Run, idx int, compression string, gate bool, prioAll ..
 			}
 			bo.Level = 1 + bo.Level%3
 		}
-		if gate {
+		shared := len(prioAll) > 1 && prioAll[1]
+		if shared {
+			// concurrent-read stages: many small chunks, several files per compressed stream
+			bo.ChunkSize = rng.Pick(64, 256, 512)
+			bo.MinChunkSize = bo.ChunkSize * rng.Pick(4, 8)
+		} else if gate {
 			bo.ChunkSize = rng.Pick(64, 512, 4096)
 			bo.MinChunkSize = 0
 		} else if idx%4 == 3 {
@@ -310,6 +326,9 @@ func buildBlobMode(r *vf.Run, idx int, compression string, gate bool, prioAll ..
 		o.MaxEntries = 10
 		if gate {
 			o.Hardlinks = false
+		}
+		if shared {
+			o.MaxEntries = 16
 		}
 		if bo.ChunkSize >= 16384 {
 			o.MaxEntries = 6
